@@ -28,7 +28,7 @@ NUMBER_LIKE = ["1", "-1", "+1", "1.5", "1e5", "1E-5", ".5", "5.", "inf", "nan",
 DATE_LIKE = ["2001-01-01", "2001-366", "2001-001", "12:00", "12:00:60",
              "2001-01-01T12:00", "12:00:00.5Z", "12:00Z", "2001-01", "1:00",
              "2001-01-01T12:00:60", "12:00+01", "12:00-07:30", "2001-01-01Z"]
-SPECIAL = ['say "hi"\n', '"q"\r\n', 'a"b\n', '\n"x"', 'two "q"\n\n', 'tab"\x0b',
+SPECIAL = ["\xa0" + "x" * 30, "y" * 30 + "\xa0", "\xa0z" * 12, 'say "hi"\n', '"q"\r\n', 'a"b\n', '\n"x"', 'two "q"\n\n', 'tab"\x0b',
            "", " ", "  ", "a b", " lead", "trail ", "a  b", "a\tb", "a\nb",
            "a\r\nb", "a-\nb", "a -\n b", "a-\r\n b", "a-\n\n  b", "pre-\r\n\r\n post", "it's", 'say "hi"', "both ' and \"",
            "/* c */", "a/*b", "*/", "# hash", "a#b", "a=b", "a;b", "a,b", "(a)",
@@ -97,6 +97,9 @@ def names(dialect):
     opts = [base, base, st.sampled_from(["a", "b", "key", "Key", "KEY"]),
             base.map(lambda s: "^" + s),
             st.tuples(base, base).map(lambda t: (t[0] + ":" + t[1])[:30])]
+    # names around the 30-character limit of ODL keywords (29..33 characters)
+    opts.append(st.integers(29, 33).map(lambda n: ("LONG_NAME_" * 4)[:n - 1] + "Z"))
+    opts.append(st.integers(29, 32).map(lambda n: "NS:" + ("ELEMENT_" * 4)[:n - 4] + "9"))
     if dialect not in ODL_FAMILY:
         opts.append(st.tuples(base, st.sampled_from(["-", ".", "/", "$", "@"]),
                               base).map("".join))
@@ -126,11 +129,15 @@ def floats():
     )
 
 
-TZ_MINUTES = [None, 0, 60, -60, 330, -210, 720, -720, 45, -15 * 60 - 0, 570]
+TZ_MINUTES = [None, 0, 60, -60, 330, -210, 720, -720, 45, -900, 570, 765, -765, 750,
+              -30]
 
 
 @functools.lru_cache(maxsize=None)
-def tzs():
+def tzs(dialect=None):
+    if dialect == "ODL":
+        # ODL refuses naive times: keep them rare so that zoned ones get written
+        return st.sampled_from(TZ_MINUTES[1:] * 4 + [None])
     return st.sampled_from(TZ_MINUTES)
 
 
@@ -147,20 +154,20 @@ def dates():
 
 
 @functools.lru_cache(maxsize=None)
-def times():
+def times(dialect=None):
     return st.builds(lambda h, m, s, us, tz: {"time": [h, m, s, us, tz]},
                      st.integers(0, 23), st.integers(0, 59),
-                     st.sampled_from([0, 0, 1, 30, 59]), micro(), tzs())
+                     st.sampled_from([0, 0, 0, 1, 30, 59]), micro(), tzs(dialect))
 
 
 @functools.lru_cache(maxsize=None)
-def datetimes():
+def datetimes(dialect=None):
     return st.builds(
         lambda d, t: {"dt": d["date"] + t["time"]},
         st.one_of(dates(), st.sampled_from([{"date": [2001, 1, 1]},
                                             {"date": [999, 12, 31]},
                                             {"date": [1, 1, 1]}])),
-        times())
+        times(dialect))
 
 
 ODL_UNITS = ["m", "KM", "m/s", "km**2", "m*s**-1", "deg", "pixel", "m/s/s",
@@ -180,7 +187,7 @@ def units(dialect):
 def scalars(dialect):
     return st.one_of(
         st.none(), st.booleans(), ints(), floats(), strings(dialect),
-        strings(dialect), dates(), times(), datetimes())
+        strings(dialect), dates(), times(dialect), datetimes(dialect))
 
 
 @functools.lru_cache(maxsize=None)
